@@ -91,11 +91,11 @@ package mcp
 //@   ensures[C16] result1 == nil
 //@   ensures[C16,C14 answers-with-a-supported-version] initParamsOK(req) ==> istype(result, InitializeResult) && inslice(m.supportedVersions, result.(InitializeResult).ProtocolVersion)
 //@   ensures[C16,C14 answers-with-the-requested-version-when-supported] initParamsOK(req) && inslice(m.supportedVersions, req.Params.(map[string]interface{})["protocolVersion"].(string)) ==> result.(InitializeResult).ProtocolVersion == req.Params.(map[string]interface{})["protocolVersion"].(string)
-//@   ensures[C16,C14 answers-with-configured-identity] initParamsOK(req) ==> result.(InitializeResult).ServerInfo.Name == m.serverInfo.Name && result.(InitializeResult).ServerInfo.Version == m.serverInfo.Version
-//@   ensures[C16,C14 tools-capability-always-advertised] initParamsOK(req) ==> result.(InitializeResult).Capabilities.Tools != nil
-//@   ensures[C16,C14 prompts-capability-iff-registered] initParamsOK(req) ==> ((result.(InitializeResult).Capabilities.Prompts != nil) <==> (m.promptManager != nil && len(m.promptManager.prompts) > 0))
-//@   ensures[C16,C14 resources-capability-iff-registered] initParamsOK(req) ==> ((result.(InitializeResult).Capabilities.Resources != nil) <==> (m.resourceManager != nil && len(m.resourceManager.resourcesOrder) > 0))
-//@   ensures[C16,C14,C03 bad-params-are-invalid-params] !initParamsOK(req) ==> istype(result, *JSONRPCError) && result.(*JSONRPCError).Error.Code == ErrCodeInvalidParams && result.(*JSONRPCError).ID == req.ID
+//@   ensures[C16 answers-with-configured-identity] initParamsOK(req) ==> result.(InitializeResult).ServerInfo.Name == m.serverInfo.Name && result.(InitializeResult).ServerInfo.Version == m.serverInfo.Version
+//@   ensures[C16 tools-capability-always-advertised] initParamsOK(req) ==> result.(InitializeResult).Capabilities.Tools != nil
+//@   ensures[C16 prompts-capability-iff-registered] initParamsOK(req) ==> ((result.(InitializeResult).Capabilities.Prompts != nil) <==> (m.promptManager != nil && len(m.promptManager.prompts) > 0))
+//@   ensures[C16 resources-capability-iff-registered] initParamsOK(req) ==> ((result.(InitializeResult).Capabilities.Resources != nil) <==> (m.resourceManager != nil && len(m.resourceManager.resourcesOrder) > 0))
+//@   ensures[C16,C03 bad-params-are-invalid-params] !initParamsOK(req) ==> istype(result, *JSONRPCError) && result.(*JSONRPCError).Error.Code == ErrCodeInvalidParams && result.(*JSONRPCError).ID == req.ID
 
 // ---------------------------------------------------------------------------
 // client.go — C16 (client state machine).  netops counts operations handed to
